@@ -17,7 +17,16 @@ VERIF = os.path.dirname(os.path.dirname(os.path.abspath(__file__)))
 REPO = os.environ.get('VERIF_REPO', '/repo')
 
 
-def build():
+# scanner back ends reachable on this host by building the SAME working tree with different switches (build.rs / src/simd/mod.rs)
+VARIANTS = {
+    'default': {},                                                     # runtime detection (AVX2 on this host)
+    'sse42': {'RUSTFLAGS': '-C target-feature=+sse4.2'},               # compile-time SSE4.2 forwarders, SSE4.2 block loop + SWAR tail
+    'avx2ct': {'RUSTFLAGS': '-C target-feature=+avx2'},                # compile-time AVX2 forwarders
+    'swar': {'CARGO_CFG_HTTPARSE_DISABLE_SIMD': '1'},                  # word-at-a-time scanners only
+}
+
+
+def build(variant='default'):
     d = tempfile.mkdtemp(prefix='httparse-witness-')
     shutil.copytree(os.path.join(VERIF, 'replay', 'src'), os.path.join(d, 'src'))
     # the crate under test is a snapshot of /repo's working tree (so that concurrent edits cannot race the build)
@@ -31,6 +40,8 @@ def build():
     open(os.path.join(d, 'Cargo.toml'), 'w').write(t)
     env = dict(os.environ, CARGO_NET_OFFLINE='true')
     env.pop('RUSTUP_TOOLCHAIN', None)
+    env.pop('RUSTFLAGS', None)
+    env.update(VARIANTS[variant])
     p = subprocess.run(['cargo', 'build', '--release', '--offline', '-q'], cwd=d, env=env, capture_output=True, text=True)
     exe = os.path.join(d, 'target', 'release', 'witness')
     if p.returncode != 0 or not os.path.exists(exe):
@@ -38,23 +49,23 @@ def build():
     return d, exe, ''
 
 
-def search(families=('all',)):
-    d, exe, err = build()
+def _search_one(variant, families):
+    d, exe, err = build(variant)
     out = dict(findings=[], error=None, evaluations=0)
     try:
         if exe is None:
-            out['error'] = 'witness build failed (the changed crate may not compile against the public API):\n' + err
+            out['error'] = 'witness build failed (%s; the changed crate may not compile against the public API):\n' % variant + err
             return out
         for fam in families:
             try:
-                p = subprocess.run([exe, 'search', fam], capture_output=True, text=True, timeout=600)
+                p = subprocess.run([exe, 'search', fam], capture_output=True, text=True, timeout=900)
             except subprocess.TimeoutExpired:
-                out['error'] = 'witness search timed out'
+                out['error'] = 'witness search timed out (%s)' % variant
                 continue
             for l in p.stdout.split('\n'):
                 if l.startswith('{'):
                     try:
-                        out['findings'].append(json.loads(l))
+                        out['findings'].append(dict(json.loads(l), backend=variant))
                     except ValueError:
                         pass
             for l in p.stderr.split('\n'):
@@ -62,11 +73,43 @@ def search(families=('all',)):
                     out['evaluations'] += int(l.split()[0].split('=')[1])
             if p.returncode not in (0, 1):
                 # a panic / abort inside the real crate: the panic hook has printed the input as a finding (gen=panic)
-                out['crashed'] = 'witness process ended abnormally on family %s (exit %d): %s' % (fam, p.returncode, p.stderr[-800:])
+                out['crashed'] = 'witness process ended abnormally on family %s, back end %s (exit %d): %s' % (fam, variant, p.returncode, p.stderr[-800:])
                 if not any(f.get('gen') == 'panic' for f in out['findings']):
                     out['error'] = out['crashed']
     finally:
         shutil.rmtree(d, ignore_errors=True)
+    return out
+
+
+def search(families=('all',), variants=('default', 'sse42', 'swar', 'avx2ct')):
+    """the same search on the same working tree built for each scanner back end; every finding carries `backend`.
+    A finding that some back ends produce and others do not is additionally marked backend_dependent (C13)."""
+    import concurrent.futures
+    with concurrent.futures.ThreadPoolExecutor(max_workers=len(variants)) as ex:
+        rs = dict(zip(variants, ex.map(lambda v: _search_one(v, families), variants)))
+    out = dict(findings=[], error=None, evaluations=0, per_backend={})
+    seen = {}
+    for v in variants:
+        r = rs[v]
+        out['evaluations'] += r['evaluations']
+        out['per_backend'][v] = dict(evaluations=r['evaluations'], findings=len(r['findings']), error=r['error'])
+        if r.get('error') and not out['error']:
+            out['error'] = r['error']
+        if r.get('crashed'):
+            out['crashed'] = r['crashed']
+        for f in r['findings']:
+            k = (f.get('family'), f.get('cfg'), f.get('cap'), f.get('entry'), f.get('input_hex'), f.get('real'))
+            if k in seen:
+                seen[k]['backends'].append(v)
+            else:
+                f['backends'] = [v]
+                seen[k] = f
+                out['findings'].append(f)
+    ok = [v for v in variants if not rs[v].get('error')]
+    for f in out['findings']:
+        f['backend_dependent'] = len(ok) > 1 and set(f['backends']) != set(ok) and not any(rs[v].get('crashed') for v in ok)
+    # default-back-end findings first (they replay without special switches)
+    out['findings'].sort(key=lambda f: (0 if 'default' in f['backends'] else 1))
     return out
 
 
@@ -98,8 +141,8 @@ def timing():
     return out
 
 
-def replay(family, cfg, cap, hexs):
-    d, exe, err = build()
+def replay(family, cfg, cap, hexs, variant='default'):
+    d, exe, err = build(variant if variant in VARIANTS else 'default')
     try:
         if exe is None:
             return 2, 'witness build failed:\n' + err
@@ -148,10 +191,10 @@ def relevant(prop, f):
     if prop == 'C10':
         return 'error-kind' in parts or 'TooManyHeaders' in f.get('real', '') + f.get('expected', '')
     if prop == 'C12':
-        return f.get('gen') == 'lane-sweep' or accepts_forbidden
+        return f.get('gen') in ('lane-sweep', 'long-sweep') or accepts_forbidden
     if prop == 'C05':
         # a byte the grammar forbids was accepted (or not yet rejected), or a reported field differs
-        return accepts_forbidden or f.get('gen') == 'lane-sweep' or any(x in parts for x in ('method', 'path', 'reason', 'headers', 'code', 'version'))
+        return accepts_forbidden or f.get('gen') in ('lane-sweep', 'long-sweep') or any(x in parts for x in ('method', 'path', 'reason', 'headers', 'code', 'version'))
     if prop == 'C17':
         return any(x in parts for x in ('headers-len-restore', 'untouched-slots')) or 'TooManyHeaders' in f.get('real', '') + f.get('expected', '') or f.get('gen') == 'capacity'
     if prop == 'C03':
@@ -166,7 +209,8 @@ def relevant(prop, f):
     if prop == 'C16':
         return True
     if prop == 'C13':
-        return fam == 'chunk' or f.get('gen') == 'lane-sweep'
+        # the result depends on the scanner back end the tree was built for, or comes from a block/phase sweep, or is the chunk-size profile branch
+        return bool(f.get('backend_dependent')) or fam == 'chunk' or f.get('gen') in ('lane-sweep', 'long-sweep')
     if prop == 'C18':
         return 'history' in parts or 'headers-len-restore' in parts
     if prop == 'C15':
